@@ -1751,7 +1751,9 @@ Proof. vm_compute. reflexivity. Qed.
    states of 60 pseudo-random histories of 120 operations, and 600 pseudo-random
    histories of 300 operations (merger and persister steps weighted up).
    PARTIAL: a bounded check, not a proof for all sequences; the theorems above
-   are stated for the sequences on which run succeeds. *)
+   are stated for the sequences on which run succeeds.  For the operations of the
+   CURRENT code the proof for all sequences is in OwnersProgressFacts.v
+   (legal_use_never_faults); this check also covers the pre-repair operations. *)
 
 Definition alphabet : list op :=
   [OpSnapCached; OpSnapFresh; OpCollGet true; OpChildSnap 0 0; OpChildSnap 1 0; OpChildSnap 2 1;
